@@ -220,6 +220,7 @@ struct CaseSpec {
   uint64_t seed = 0;
   uint64_t case_no = 0;
   uint32_t step_cap = 20000, window = 16;
+  int harness_version = 1;
   std::vector<std::pair<std::string, uint64_t>> params;
 };
 
@@ -243,7 +244,7 @@ static void spec_to_shm(const CaseSpec& c, bool replay, bool desc) {
 static std::string replay_json(const CaseSpec& c, const Traces& t, const Outcome& o, const std::string& description, int repro_ok, int repro_n) {
   std::string j = "{\n";
   j += "\"property\":\"" + c.prop + "\",\n\"harness\":\"" + std::string(H->name) + "\",\n\"cfg\":\"" + c.cfgname + "\",\n";
-  j += "\"variant\":\"" + c.variant + "\",\n";
+  j += "\"variant\":\"" + c.variant + "\",\n\"harness_version\":" + std::to_string(H->version) + ",\n";
   j += "\"flags\":" + std::to_string(c.flags & ~(F_REPLAY | F_WANT_DESC)) + ",\n";
   j += "\"seed\":" + std::to_string(c.seed) + ",\n\"case_no\":" + std::to_string(c.case_no) + ",\n";
   j += "\"step_cap\":" + std::to_string(c.step_cap) + ",\n\"weak_window\":" + std::to_string(c.window) + ",\n";
@@ -304,6 +305,8 @@ static bool load_replay(const char* path, CaseSpec& c, Traces& t, std::string& k
       c.cfgname = jp.str();
     else if (key == "variant")
       c.variant = jp.str();
+    else if (key == "harness_version")
+      c.harness_version = (int)jp.num();
     else if (key == "flags")
       c.flags = (uint32_t)jp.num();
     else if (key == "seed")
@@ -376,7 +379,7 @@ struct Shrink2 {
   std::string kind;
   Traces* cur;
   Traces* cand;
-  int runs = 0, max_runs = 600;
+  int runs = 0, max_runs = 6000;
   double t_end = 0;
   bool budget() const { return runs < max_runs && now_s() < t_end; }
 
@@ -485,6 +488,7 @@ struct Args {
   double shrink_s = 30;
   bool want_desc = false;
   std::vector<std::pair<std::string, uint64_t>> params;
+  std::vector<std::pair<std::string, std::string>> known; // (kind, cfg prefix): listed known findings
 };
 
 static bool has_tag(const char* tags, const std::string& tag) {
@@ -523,6 +527,11 @@ static int do_replay(const Args& a) {
   if (!load_replay(a.replay_file.c_str(), spec, t, kind)) {
     fprintf(stderr, "cannot load replay file %s for harness %s\n", a.replay_file.c_str(), H->name);
     return 2;
+  }
+  if (spec.harness_version != H->version) {
+    printf("REPLAY-STALE %s was recorded with generator version %d of harness %s, current version is %d\n", a.replay_file.c_str(), spec.harness_version,
+           H->name, H->version);
+    return 3;
   }
   int fails = 0, same = 0;
   Outcome last;
@@ -567,6 +576,8 @@ static int do_campaign(const Args& a) {
   std::unordered_set<uint64_t> fps;
   std::vector<std::string> samples;
   std::map<int, int> cfg_failures;
+  std::map<std::string, uint64_t> known_hits;
+  std::map<std::string, bool> known_saved;
   struct Viol {
     std::string kind, msg, replay, cfg;
     uint64_t case_no;
@@ -625,6 +636,15 @@ static int do_campaign(const Args& a) {
     } else if (o.verdict == V_INCONCLUSIVE) {
       inconcl[o.kind]++;
     } else {
+      // a violation that matches a listed known finding is counted and the search continues behind it
+      std::string known_key;
+      for (auto& kf : a.known)
+        if (o.kind == kf.first && spec.cfgname.compare(0, kf.second.size(), kf.second) == 0) known_key = kf.first + ":" + spec.cfgname;
+      if (!known_key.empty()) {
+        known_hits[known_key]++;
+        if (known_saved[known_key]) continue;
+        known_saved[known_key] = true; // the first one is shrunk and saved below like any violation
+      }
       // ---- violation: make it explicit, shrink, confirm 3x, write replay file
       memcpy(&tcur, &S->out, sizeof(Traces));
       bool explicit_ok = false;
@@ -674,7 +694,7 @@ static int do_campaign(const Args& a) {
       if (ok == n) {
         std::string path = write_replay_file(a, spec, tcur, fin, description, ok, n);
         viols.push_back(Viol{fin.kind, fin.msg, path, spec.cfgname, cn, ok});
-        cfg_failures[ci]++;
+        if (known_key.empty()) cfg_failures[ci]++;
       } else {
         unstable++;
         inconcl["unstable_violation:" + o.kind]++;
@@ -700,6 +720,7 @@ static int do_campaign(const Args& a) {
     j += "},\n";
   };
   jmap("inconclusive", inconcl);
+  jmap("known_finding_hits", known_hits);
   jmap("labels", labels);
   jmap("strategies", strategies);
   j += "\"per_cfg\":{";
@@ -796,7 +817,11 @@ int main(int argc, char** argv) {
       CPU_SET(atoi(val().c_str()), &set);
       sched_setaffinity(0, sizeof set, &set);
     }
-    else if (k == "--param") {
+    else if (k == "--known") {
+      std::string p = val();
+      size_t e = p.find(':');
+      a.known.emplace_back(p.substr(0, e), e == std::string::npos ? "" : p.substr(e + 1));
+    } else if (k == "--param") {
       std::string p = val();
       size_t e = p.find('=');
       if (e != std::string::npos) a.params.emplace_back(p.substr(0, e), strtoull(p.c_str() + e + 1, nullptr, 10));
